@@ -82,7 +82,7 @@ func (C14) New() any { return &C14Scenario{} }
 func (C14) Gen(t *tape.Tape, tier string) any {
 	sc := &C14Scenario{}
 	sc.Mode = []string{"sink", "source", "trunc", "copy"}[t.Weighted(4, 4, 1, 2)]
-	shapes := []gen.Shape{gen.ShapeFlat, gen.ShapeNested, gen.ShapeLogical}
+	shapes := []gen.Shape{gen.ShapeFlat, gen.ShapeNested, gen.ShapeLogical, gen.ShapeDyn, gen.ShapeGen}
 	sc.Plan = GenWritePlan(t, shapes, 400)
 	if sc.Plan.NRows > 400 {
 		sc.Plan.NRows = 400
